@@ -21,6 +21,21 @@ pub enum Rewrite {
 
 /// Re-emit `secs0`; unit i is written incrementally iff `subset[i]`.
 pub fn rewrite(secs0: &Secs, le: bool, subset: &[bool]) -> Rewrite {
+    let plan: Vec<Act> = subset.iter().map(|b| if *b { Act::Incremental } else { Act::Late }).collect();
+    rewrite_plan(secs0, le, &plan)
+}
+
+#[derive(Clone, Copy, Debug, PartialEq, Eq)]
+pub enum Act {
+    /// written by the final `Dwarf::write`
+    Late,
+    /// `ConvertUnit::write` right after the conversion
+    Incremental,
+    /// `ConvertUnit::skip` instead of the conversion: the unit is never written
+    Skip,
+}
+
+pub fn rewrite_plan(secs0: &Secs, le: bool, plan: &[Act]) -> Rewrite {
     let endian = endian_of(le);
     let dwarf: gimli::Dwarf<Slice<'_>> = match gimli::Dwarf::load(|id| -> Result<Slice<'_>, gimli::Error> { Ok(gimli::EndianSlice::new(secs0.get(id), endian)) }) {
         Ok(d) => d,
@@ -40,10 +55,16 @@ pub fn rewrite(secs0: &Secs, le: bool, subset: &[bool]) -> Rewrite {
                 Ok(None) => break,
                 Err(e) => return Rewrite::ConvErr(format!("{e:?}")),
             };
+            let act = plan.get(i).copied().unwrap_or(Act::Late);
+            if act == Act::Skip {
+                unit.skip();
+                i += 1;
+                continue;
+            }
             if let Err(e) = unit.convert(root, &|a| Some(w::Address::Constant(a))) {
                 return Rewrite::ConvErr(format!("{e:?}"));
             }
-            if subset.get(i).copied().unwrap_or(false) {
+            if act == Act::Incremental {
                 if let Err(e) = unit.write(&mut sections) {
                     return Rewrite::WriteErr(format!("ConvertUnit::write of unit {i}: {e:?}"));
                 }
@@ -219,6 +240,89 @@ pub fn run_order_case(ctx: &mut Ctx, stream: &str, spec: &CaseSpec, r: &mut Rng)
                         }
                     }
                 }
+            }
+        }
+    }
+    run_skip_case(ctx, stream, spec, &secs0, &sites, r);
+}
+
+/// The genuine defect found with the skip dimension (reported, open): a reference to an entry
+/// of a unit that was dropped with `ConvertUnit::skip` makes `Dwarf::write` index the empty
+/// offset table of that unit (`UnitOffsets::debug_info_offset`, src/write/unit.rs) and panic
+/// instead of returning `Error::InvalidReference`.  While this is `true` exactly that panic
+/// (message "index out of bounds", raised in write/unit.rs, for a model that does refer to
+/// the skipped unit) is counted under `order.skip.known_panic` instead of being reported
+/// (set the environment variable GV_C11_STRICT to report it).
+pub const SKIP_KNOWN_PANIC_REF_TO_SKIPPED_UNIT: bool = true;
+
+/// One unit is dropped with `ConvertUnit::skip`, the others are written incrementally or
+/// late.  Without references into the dropped unit the rest must read back as the model
+/// minus that unit; with such references the request cannot be encoded and must be refused.
+pub fn run_skip_case(ctx: &mut Ctx, stream: &str, spec: &CaseSpec, secs0: &Secs, sites: &[(&'static str, usize, usize)], r: &mut Rng) {
+    let n = spec.units.len();
+    if n < 2 {
+        return;
+    }
+    let s = r.usize(n);
+    let mode = r.below(3);
+    let plan: Vec<Act> = (0..n)
+        .map(|i| {
+            if i == s {
+                Act::Skip
+            } else {
+                match mode {
+                    0 => Act::Late,
+                    1 => Act::Incremental,
+                    _ => {
+                        if r.bool() {
+                            Act::Incremental
+                        } else {
+                            Act::Late
+                        }
+                    }
+                }
+            }
+        })
+        .collect();
+    let refs_into_skipped = sites.iter().any(|(_, a, b)| *a != s && *b == s);
+    let desc = case_input(spec);
+    let input = || json!({"spec": desc, "plan": format!("{plan:?}"), "s0": secs0.json()});
+    let input: &dyn Fn() -> serde_json::Value = &input;
+    let le = spec.le;
+    let rw = match ctx.guard_raw("order.skip.rewrite", || rewrite_plan(secs0, le, &plan)) {
+        Ok(rw) => rw,
+        Err(p) => {
+            if SKIP_KNOWN_PANIC_REF_TO_SKIPPED_UNIT && std::env::var_os("GV_C11_STRICT").is_none() && refs_into_skipped && p.file.ends_with("write/unit.rs") && p.message.contains("index out of bounds") {
+                ctx.obs("order.skip.known_panic");
+            } else {
+                ctx.report_panic("order.skip.rewrite", &p, input);
+            }
+            return;
+        }
+    };
+    match rw {
+        Rewrite::ConvErr(_) => ctx.obs("order.skip.convert_err"),
+        Rewrite::WriteErr(e) => {
+            if refs_into_skipped {
+                ctx.obs("order.skip.refused");
+            } else {
+                ctx.fail("order.skip.write_err", &format!("plan {plan:?}: {e} although nothing refers to the skipped unit"), input);
+            }
+        }
+        Rewrite::Ok(secs) => {
+            if refs_into_skipped {
+                ctx.fail("order.skip.ok_for_dangling_reference", &format!("plan {plan:?}: Ok although another unit refers to an entry of the skipped unit {s}"), &|| json!({"spec": desc, "plan": format!("{plan:?}"), "sections": secs.json()}));
+                return;
+            }
+            let mut phys: Vec<usize> = (0..n).filter(|i| plan[*i] == Act::Incremental).collect();
+            phys.extend((0..n).filter(|i| plan[*i] == Act::Late));
+            if compare_readback_at(ctx, stream, spec, &secs, Some(&phys), "order.skip.") {
+                ctx.obs("order.skip.verified");
+                ctx.obs(match mode {
+                    0 => "order.skip.others_late",
+                    1 => "order.skip.others_incremental",
+                    _ => "order.skip.others_mixed",
+                });
             }
         }
     }
